@@ -1,25 +1,530 @@
 package main
 
+// Property monitors of family "circ": each evaluates a property's OWN statement
+// on what the implementation did, with a few lines of bookkeeping and without
+// the Coq model.  They are the search for a concrete failing input; clauses are
+// prefixed with the property id so that each check reads only its own.
+
 import (
+	"fmt"
+	"time"
+
 	"verifharness/internal/hc"
 )
 
-func circCorpus() []*hc.Case { return nil }
+type monCall struct {
+	spec       callSpec
+	begun      bool
+	enabled    bool // the circuit was constructed and not disabled when the call began
+	vetoed     bool
+	shed       bool
+	throttled  bool
+	invoked    int
+	fbInvoked  int
+	returned   int
+	retVal     string
+	panicked   bool
+	runPanic   bool
+	fbPanic    bool
+	startClock time.Time
+	timeoutAt  int64 // Execution.Timeout in force at Begin
+	derived    bool
+	runEvents  map[string][]evRec
+	fbEvents   map[string][]evRec
+	endRes     string
+	endRK      int
+	fbRes      string
+	fbRK       int
+	fbStart    time.Time
+	fbErr      string
+	doneAtEnd  bool
+	ended      bool
+	inRun      bool
+	inFb       bool
+	fbChecked  bool
+}
 
-// circMonitors evaluates the properties' own statements on what the
-// implementation did (independent of the Coq model).
-func circMonitors(c *hc.Case, h *circRun, ops []circOp, bounds []int, tags map[string]bool) {
-	for _, e := range h.ev {
-		switch e.Kind {
-		case "run":
-			tags["run:"+e.K] = true
-		case "fb":
-			tags["fb:"+e.K] = true
-		case "circ":
-			tags["circ:"+e.K] = true
-		case "returned":
-			if e.B2 {
+func circMonitors(c *hc.Case, h *circRun, ops []circOp, bounds []int, clocks []time.Time, tags map[string]bool) {
+	p := h.params
+	viol := func(i int, clause, detail string, a ...interface{}) {
+		if len(c.Viol) < 12 {
+			c.Viol = append(c.Viol, hc.Violation{Clause: clause, Detail: fmt.Sprintf(detail, a...), AtOp: i})
+		}
+	}
+	live := p.Live
+	normal := p.Mode == "normal"
+	calls := map[int]*monCall{}
+	prevOpen := h.initOpen
+	circLog := map[string][]string{}
+	lastNote := ""
+	inRun, inFb := int64(0), int64(0)
+	// C03 bookkeeping (hystrix closer)
+	var openedAt time.Time
+	haveOpened := false
+	var probeStamps []time.Time
+	consecSucc := int64(0)
+	// C02 bookkeeping
+	type oc struct {
+		k string
+		t time.Time
+	}
+	var sinceTransition []oc
+	openerStart := hc.T0
+
+	runCollectors := []string{"WCloser", "WOpener"}
+	for i := 0; i < p.NRun; i++ {
+		runCollectors = append(runCollectors, fmt.Sprintf("(WUser %d%%nat)", i))
+	}
+	circCollectors := []string{"WCloser", "WOpener"}
+	for i := 0; i < p.NCirc; i++ {
+		circCollectors = append(circCollectors, fmt.Sprintf("(WUser %d%%nat)", i))
+	}
+
+	lo := 0
+	for i, o := range ops {
+		evs := h.ev[lo:bounds[i]]
+		lo = bounds[i]
+		now := clocks[i]
+		overridden := live.ForceOpen || live.ForcedClosed
+		var mc *monCall
+		switch o.K {
+		case "begin":
+			mc = &monCall{spec: *o.Call, begun: true, enabled: normal && !live.Disabled, startClock: now, timeoutAt: live.Timeout,
+				runEvents: map[string][]evRec{}, fbEvents: map[string][]evRec{}}
+			calls[o.ID] = mc
+		case "endrun", "endfb":
+			mc = calls[o.ID]
+			if mc != nil && o.K == "endrun" && mc.inRun {
+				mc.endRes, mc.endRK, mc.ended = o.Res, o.RK, true
+			}
+			if mc != nil && o.K == "endfb" && mc.inFb {
+				mc.fbRes, mc.fbRK = o.Res, o.RK
+			}
+		case "setcfg":
+			live = *o.Live
+		}
+		allowAsked, allowAns, preventAns := false, false, false
+		shouldOpenAns, shouldOpenAsked := false, false
+		opened, closed := false, false
+		var segRun []evRec
+		for _, e := range evs {
+			switch e.Kind {
+			case "answer":
+				switch e.K {
+				case "Allow":
+					allowAsked, allowAns = true, e.B
+				case "Prevent":
+					preventAns = e.B
+				case "ShouldOpen":
+					shouldOpenAsked, shouldOpenAns = true, e.B
+				}
+			case "asked":
+				if !e.T.Equal(now) {
+					viol(i, "C12: every time value passed to the opener and closer is a reading of the configured TimeKeeper taken during that call", "%s got %v, clock %v", e.K, e.T, now)
+				}
+			case "invoked":
+				if mc == nil {
+					break
+				}
+				mc.invoked++
+				mc.inRun = true
+				if mc.enabled {
+					inRun++
+				}
+				tags["invoked"] = true
+				mc.derived = e.B
+				if mc.enabled {
+					wantDerived := mc.timeoutAt > 0
+					if e.B != wantDerived {
+						viol(i, "C07: with Timeout > 0 the run function receives a derived context, with Timeout <= 0 the caller's context itself", "derived=%v timeout=%d", e.B, mc.timeoutAt)
+					}
+					var want *time.Time
+					if mc.spec.Deadline != nil {
+						t := hc.T0.Add(time.Duration(*mc.spec.Deadline))
+						want = &t
+					}
+					if wantDerived {
+						t := now.Add(time.Duration(mc.timeoutAt))
+						if want == nil || t.Before(*want) {
+							want = &t
+						}
+					}
+					if (want == nil) != !e.HasD || (want != nil && !want.Equal(e.T)) {
+						viol(i, "C07: the deadline is the earlier of the caller's deadline and call start plus Timeout", "deadline %v (has=%v) want %v", e.T, e.HasD, want)
+					}
+				} else if e.B {
+					viol(i, "C08: a Disabled / nil / zero-value circuit runs the function with the caller's context", "derived context in pass-through mode")
+				}
+				if !e.B2 {
+					viol(i, "C07: the derived context carries the caller's values", "value lost")
+				}
+			case "runend":
+				if mc != nil {
+					mc.doneAtEnd = e.B
+				}
+			case "fbinvoked":
+				if mc == nil {
+					break
+				}
+				mc.fbInvoked++
+				mc.inFb = true
+				mc.fbStart = now
+				mc.fbErr = e.Val
+				inFb++
+				tags["fallback"] = true
+				if !e.B {
+					viol(i, "C07: the fallback always receives the caller's original context", "fallback got another context")
+				}
+			case "returned":
+				if mc == nil {
+					break
+				}
+				mc.returned++
+				mc.retVal = e.Val
+				mc.panicked = e.B2
+				if mc.derived && mc.invoked > 0 && !e.B {
+					viol(i, "C07: the derived context is released when the call returns", "run context still live after return")
+				}
+			case "run":
+				segRun = append(segRun, e)
+				tags["run:"+e.K] = true
+				if mc != nil {
+					mc.runEvents[e.Who] = append(mc.runEvents[e.Who], e)
+				}
+				if !e.T.Equal(now) {
+					viol(i, "C12: every time value passed to collectors is a reading of the configured TimeKeeper taken during that call", "run event %s at %v, clock %v", e.K, e.T, now)
+				}
+				if e.HasD && mc != nil && e.D != now.Sub(mc.startClock) {
+					viol(i, "C12: every reported duration is the difference of two readings of the TimeKeeper", "duration %v want %v", e.D, now.Sub(mc.startClock))
+				}
+				if e.Who == "WOpener" {
+					sinceTransition = append(sinceTransition, oc{e.K, e.T})
+					switch e.K {
+					case "KSuccess":
+						consecSucc++
+					case "KFailure", "KTimeout":
+						consecSucc = 0
+					}
+				}
+			case "fb":
+				tags["fb:"+e.K] = true
+				if mc != nil {
+					mc.fbEvents[e.Who] = append(mc.fbEvents[e.Who], e)
+					want := now
+					if e.HasD {
+						want = mc.fbStart
+						if e.D != now.Sub(mc.fbStart) {
+							viol(i, "C12: every reported duration is the difference of two readings of the TimeKeeper", "fallback duration %v want %v", e.D, now.Sub(mc.fbStart))
+						}
+					}
+					if !e.T.Equal(want) {
+						viol(i, "C12: every time value passed to collectors is a reading of the configured TimeKeeper taken during that call", "fallback event at %v want %v", e.T, want)
+					}
+				}
+			case "circ":
+				tags["circ:"+e.K] = true
+				circLog[e.Who] = append(circLog[e.Who], e.K)
+				if !e.T.Equal(now) {
+					viol(i, "C12: every time value on every entry point including OpenCircuit and CloseCircuit is a reading of the configured TimeKeeper", "%s at %v, clock %v", e.K, e.T, now)
+				}
+				if e.Who == "WCloser" {
+					lastNote = e.K
+					sinceTransition = nil
+					consecSucc = 0
+					if e.K == "Opened" {
+						opened, haveOpened, openedAt = true, true, now
+						probeStamps = nil
+					} else {
+						closed = true
+					}
+				}
+			}
+		}
+		// ---- per-event checks
+		var rd evRec
+		for _, e := range evs {
+			if e.Kind == "reading" {
+				rd = e
+			}
+		}
+		if o.K == "begin" && mc != nil && mc.enabled && mc.spec.HasRun {
+			admittedByCloser := allowAsked && allowAns
+			if prevOpen && mc.invoked > 0 && !admittedByCloser {
+				viol(i, "C01: while a circuit is open and its close logic does not admit the call, the run function is never invoked", "invoked while IsOpen and Allow asked=%v answered=%v", allowAsked, allowAns)
+			}
+			if live.ForceOpen && mc.invoked > 0 {
+				viol(i, "C08: ForceOpen rejects every call regardless of the close logic", "run function invoked under ForceOpen")
+			}
+			if preventAns && mc.invoked > 0 {
+				viol(i, "C01: when the open logic vetoes the call the run function is never invoked", "invoked after Prevent=true")
+			}
+			mc.vetoed = preventAns
+			if prevOpen && !admittedByCloser {
+				mc.shed = true
+				tags["shed"] = true
+				for _, w := range runCollectors {
+					if len(mc.runEvents[w]) != 1 || mc.runEvents[w][0].K != "KShort" {
+						viol(i, "C01: a rejection caused by the open state records exactly one short-circuit event and no other run event", "collector %s saw %d run events", w, len(mc.runEvents[w]))
+					}
+				}
+				okRes := mc.fbInvoked == 1 && mc.fbErr == "VCircuitOpen" || mc.returned == 1 && (mc.retVal == "VCircuitOpen" || mc.retVal == "VFbThrottled")
+				if !okRes {
+					viol(i, "C01: the caller receives an error reporting CircuitOpen()==true, or the fallback's result with that error handed to the fallback", "returned=%d val=%s fb=%d fbErr=%s", mc.returned, mc.retVal, mc.fbInvoked, mc.fbErr)
+				}
+			}
+			if live.ForcedClosed && !live.ForceOpen && mc.shed {
+				viol(i, "C08: ForcedClosed admits every call subject only to the concurrency limit", "call shed under ForcedClosed")
+			}
+			if mc.invoked == 0 && !mc.shed && !mc.vetoed {
+				mc.throttled = true
+				tags["throttled"] = true
+				if live.Max < 0 {
+					viol(i, "C04: a negative limit means unlimited", "call refused with limit %d", live.Max)
+				}
+				if mc.returned == 1 && mc.retVal != "VThrottled" && mc.retVal != "VFbThrottled" || mc.fbInvoked == 1 && mc.fbErr != "VThrottled" {
+					viol(i, "C04: a call refused for the concurrency limit returns an error reporting ConcurrencyLimitReached()==true", "val=%s fbErr=%s", mc.retVal, mc.fbErr)
+				}
+				for _, w := range runCollectors {
+					if len(mc.runEvents[w]) != 1 || mc.runEvents[w][0].K != "KReject" {
+						viol(i, "C04: a refused call records exactly one rejection event", "collector %s saw %d run events", w, len(mc.runEvents[w]))
+					}
+				}
+			}
+			if mc.invoked > 0 && live.Max >= 0 && inRun > live.Max {
+				viol(i, "C04: at no instant are more than MaxConcurrentRequests run functions in flight", "%d in flight, limit %d", inRun, live.Max)
+			}
+			if haveOpened && prevOpen && p.Closer.Kind == "hystrix" && !live.ForcedClosed && mc.invoked > 0 {
+				if now.Before(openedAt.Add(time.Duration(p.Closer.Sleep))) {
+					viol(i, "C03: no call that starts after the opening and within SleepWindow of it runs the protected function", "ran at +%v, SleepWindow %v", now.Sub(openedAt), time.Duration(p.Closer.Sleep))
+				}
+				probeStamps = append(probeStamps, now)
+				k := p.Closer.HalfOpen
+				if k < 1 {
+					k = 1
+				}
+				if n := int64(len(probeStamps)); n > k {
+					if probeStamps[n-1].Sub(probeStamps[n-1-k]) < time.Duration(p.Closer.Sleep) {
+						viol(i, "C03: while it stays open, the calls admitted in any time span shorter than SleepWindow number at most max(1, HalfOpenAttempts)", "%d admissions within %v", k+1, probeStamps[n-1].Sub(probeStamps[n-1-k]))
+					}
+				}
+				tags["probe"] = true
+			}
+		}
+		if o.K == "begin" && mc != nil && !mc.enabled {
+			if len(segRun) > 0 || mc.fbInvoked > 0 {
+				viol(i, "C08: a Disabled, nil or zero-value circuit produces no events, limits or fallback", "events in pass-through mode")
+			}
+		}
+		justEnded := false
+		if mc != nil && o.K == "endrun" && mc.inRun && mc.ended {
+			mc.inRun = false
+			if mc.enabled {
+				inRun--
+			}
+			justEnded = true
+		}
+		if mc != nil && o.K == "endfb" && mc.inFb && mc.fbRes != "" {
+			mc.inFb = false
+			inFb--
+		}
+		// classification of a completed run (C05) and the return contract (C06)
+		if mc != nil && justEnded && mc.enabled && mc.endRes != "" {
+			res := mc.endRes
+			if res == "panic" {
+				mc.runPanic = true
 				tags["panic"] = true
+				for _, w := range runCollectors {
+					if len(mc.runEvents[w]) != 0 {
+						viol(i, "C10: no run event has been recorded for the panicking function", "collector %s saw %s", w, mc.runEvents[w][0].K)
+					}
+				}
+				if mc.retVal != fmt.Sprintf("(VPanic %d)", mc.endRK%5) {
+					viol(i, "C10: a panic reaches the caller with the same panic value", "got %s want (VPanic %d)", mc.retVal, mc.endRK%5)
+				}
+				if opened || closed {
+					viol(i, "C10: after a panic the open/closed state is unchanged", "transition during a panicking call")
+				}
+			} else {
+				want := "KSuccess"
+				elapsed := now.Sub(mc.startClock)
+				switch {
+				case res == "bad" || res == "wrapbad":
+					want = "KBadRequest"
+				case mc.timeoutAt > 0 && elapsed > time.Duration(mc.timeoutAt):
+					want = "KTimeout"
+				case res != "nil" && mc.doneAtEnd && !live.IgnoreInt && live.IE != "false":
+					want = "KInterrupt"
+				case res != "nil":
+					want = "KFailure"
+				}
+				for _, w := range runCollectors {
+					if len(mc.runEvents[w]) != 1 {
+						viol(i, "C05: each call produces exactly one run event, delivered identically to the opener, the closer and every collector", "collector %s saw %d run events", w, len(mc.runEvents[w]))
+					} else if mc.runEvents[w][0].K != want {
+						viol(i, "C05: the kind follows the precedence order bad request, timeout, caller interrupt, failure, success", "collector %s saw %s want %s", w, mc.runEvents[w][0].K, want)
+					}
+				}
+				// C06
+				fbAvail := mc.spec.HasFb && mc.spec.Entry != "run" && !live.FbDisabled
+				switch {
+				case res == "nil":
+					if mc.retVal != "VNil" || mc.fbInvoked != 0 {
+						viol(i, "C06: Execute returns nil exactly when the run function returned nil", "got %s fb=%d", mc.retVal, mc.fbInvoked)
+					}
+				case res == "bad" || res == "wrapbad":
+					wantV := fmt.Sprintf("(VBad %d)", mc.endRK)
+					if res == "wrapbad" {
+						wantV = fmt.Sprintf("(VWrapBad %d)", mc.endRK)
+					}
+					if mc.retVal != wantV || mc.fbInvoked != 0 {
+						viol(i, "C06: bad requests never reach the fallback and are returned unchanged", "got %s fb=%d", mc.retVal, mc.fbInvoked)
+					}
+				default:
+					wantV := fmt.Sprintf("(VRun %d)", mc.endRK)
+					if !fbAvail {
+						if mc.retVal != wantV {
+							viol(i, "C06: in every other case the run step's own error value is returned unchanged", "got %s want %s", mc.retVal, wantV)
+						}
+					} else if mc.fbInvoked == 1 {
+						if mc.fbErr != wantV {
+							viol(i, "C06: the fallback receives that very error", "fallback got %s want %s", mc.fbErr, wantV)
+						}
+					} else if mc.retVal != "VFbThrottled" {
+						viol(i, "C06: when the fallback limit is exhausted a ConcurrencyLimitReached error is returned without invoking it", "got %s", mc.retVal)
+					}
+				}
+			}
+		}
+		if mc != nil && o.K == "endfb" && mc.fbRes != "" && mc.returned > 0 && !mc.fbChecked {
+			mc.fbChecked = true
+			want := map[string]string{"fnil": "VNil", "ferr": fmt.Sprintf("(VFb %d)", mc.fbRK), "fpanic": fmt.Sprintf("(VPanic %d)", mc.fbRK%5)}[mc.fbRes]
+			if mc.retVal != want {
+				viol(i, "C06: Execute returns exactly the fallback's result", "got %s want %s", mc.retVal, want)
+			}
+			nfb := 0
+			for _, l := range mc.fbEvents {
+				nfb += len(l)
+			}
+			wantN := p.NFb
+			if mc.fbRes == "fpanic" {
+				wantN = 0
+			}
+			if nfb != wantN {
+				viol(i, "C05: each fallback attempt produces exactly one of success, failure or rejection", "%d fallback events for %d collectors", nfb, p.NFb)
+			}
+		}
+		if mc != nil && (mc.invoked > 1 || mc.fbInvoked > 1 || mc.returned > 1) {
+			viol(i, "C06: Execute invokes the run function at most once and the fallback at most once", "invoked=%d fb=%d returned=%d", mc.invoked, mc.fbInvoked, mc.returned)
+		}
+		// gauges (C04) at call granularity
+		if normal && rd.Kind == "reading" {
+			if rd.Z[0] != inRun || rd.Z[1] != inFb {
+				viol(i, "C04: ConcurrentCommands/ConcurrentFallbacks equal the number of run functions/fallbacks in flight (zero once all calls have returned)", "gauges %d/%d, in flight %d/%d", rd.Z[0], rd.Z[1], inRun, inFb)
+			}
+			// overrides and notifications
+			if live.ForceOpen && !rd.B {
+				viol(i, "C08: ForceOpen makes IsOpen true", "IsOpen false")
+			}
+			if live.ForcedClosed && !live.ForceOpen && rd.B {
+				viol(i, "C08: ForcedClosed makes IsOpen false", "IsOpen true")
+			}
+			if overridden && o.K != "setcfg" && (opened || closed) {
+				viol(i, "C08: an override keeps failures, successes and OpenCircuit/CloseCircuit from changing the underlying state", "transition under override")
+			}
+			if !live.ForceOpen && !live.ForcedClosed {
+				if rd.B != (lastNote == "Opened") {
+					viol(i, "C09: whenever the circuit is quiescent and not overridden IsOpen is true exactly when the last notification was Opened", "IsOpen=%v last=%q", rd.B, lastNote)
+				}
+			}
+			prevOpenBefore := prevOpen
+			prevOpen = rd.B
+			// C02: did the circuit open exactly when the documented rule says
+			if justEnded && mc.endRes != "panic" && !prevOpenBefore && !overridden && len(segRun) > 0 &&
+				(segRun[0].K == "KFailure" || segRun[0].K == "KTimeout") {
+				wantOpen, decided := false, false
+				switch p.Opener.Kind {
+				case "hystrix":
+					if p.Opener.N > 0 && p.Opener.Dur/int64(p.Opener.N) > 0 {
+						w := p.Opener.Dur / int64(p.Opener.N)
+						idx := func(t time.Time) int64 { return int64(t.Sub(openerStart)) / w }
+						atts, errs := int64(0), int64(0)
+						for _, x := range sinceTransition {
+							if idx(x.t) > idx(now)-int64(p.Opener.N) {
+								switch x.k {
+								case "KSuccess":
+									atts++
+								case "KFailure", "KTimeout":
+									atts++
+									errs++
+								}
+							}
+						}
+						wantOpen, decided = atts >= p.Opener.Vol && 100*errs >= p.Opener.Pct*atts, true
+						tags["c02:hystrix_decision"] = true
+					}
+				case "consec":
+					n := int64(0)
+					for j := len(sinceTransition) - 1; j >= 0; j-- {
+						k := sinceTransition[j].k
+						if k == "KFailure" || k == "KTimeout" {
+							n++
+						} else if k == "KSuccess" {
+							break
+						}
+					}
+					wantOpen, decided = n >= p.Opener.Thr, true
+					tags["c02:consec_decision"] = true
+				}
+				// sinceTransition was cleared if the circuit opened in this segment: recompute from shouldOpen's own answer
+				if decided && !opened && wantOpen {
+					viol(i, "C02: the circuit opens at the completion of a failed or timed-out call if and only if the documented threshold is met", "threshold met but the circuit stayed closed (ShouldOpen asked=%v answered=%v)", shouldOpenAsked, shouldOpenAns)
+				}
+				if opened {
+					tags["c02:opened"] = true
+				}
+			}
+		}
+		if justEnded && normal && p.Closer.Kind == "hystrix" && len(segRun) > 0 {
+			k := segRun[0].K
+			if (k == "KFailure" || k == "KTimeout") && closed {
+				viol(i, "C03: a failed probe leaves it open", "closed on %s", k)
+			}
+		}
+	}
+	// whole-history checks
+	for _, w := range circCollectors {
+		l := circLog[w]
+		for j, k := range l {
+			want := "Opened"
+			if j%2 == 1 {
+				want = "Closed"
+			}
+			if k != want {
+				viol(len(ops)-1, "C09: the notifications strictly alternate starting with Opened", "collector %s: %v", w, l)
+				break
+			}
+		}
+		if len(l) != len(circLog["WCloser"]) {
+			viol(len(ops)-1, "C09: circuit-level collectors, the opener and the closer are told each transition exactly once", "collector %s saw %d, closer %d", w, len(l), len(circLog["WCloser"]))
+		}
+	}
+	if normal && (inRun != 0 || inFb != 0) {
+		// the generator always finishes every call; anything else is a harness bookkeeping error, not a finding
+		tags["unfinished"] = true
+	}
+	for id, mc := range calls {
+		_ = id
+		if mc.enabled && mc.spec.HasRun && !mc.vetoed && !mc.runPanic && (mc.ended || mc.shed || mc.throttled) {
+			var ref []evRec
+			for wi, w := range runCollectors {
+				if wi == 0 {
+					ref = mc.runEvents[w]
+					continue
+				}
+				l := mc.runEvents[w]
+				if len(l) != len(ref) || (len(l) > 0 && (l[0].K != ref[0].K || !l[0].T.Equal(ref[0].T) || l[0].D != ref[0].D)) {
+					viol(len(ops)-1, "C05: the run event is delivered identically to the opener, the closer and every configured collector", "collector %s differs", w)
+				}
 			}
 		}
 	}
